@@ -1,8 +1,5 @@
 module verifextract
 
-<<<<<<< HEAD
-go 1.20
-=======
 go 1.22.0
 
 toolchain go1.23.5
@@ -13,4 +10,3 @@ require (
 	golang.org/x/mod v0.22.0 // indirect
 	golang.org/x/sync v0.10.0 // indirect
 )
->>>>>>> d443041692567172e2bd42b65c1efc0ecbb7dcf4
